@@ -20,7 +20,7 @@ theorem rfftCheck_ok (lm M : ℕ) (h1 : 2 * lm + 1 ≤ M) : rfftCheck ((2 * lm +
 /-- `ToS2Grid.forward`: whichever branch is taken, no assert fires and the result is the einsum path -/
 theorem toForwardWith_eq_dense (lmax M : ℕ) (shb : ℕ → ℕ → ℕ → ℝ) (x : ℕ → ℝ) :
     toForwardWith lmax M shb x = .ok (toForwardDenseWith lmax M shb x) := by
-  unfold toForwardWith
+  unfold toForwardWith toAlphaStep
   by_cases h : useFFT lmax M = true
   · obtain ⟨h1, h2⟩ := (useFFT_iff lmax M).mp h
     simp only [h, if_true, irfftCheck_ok lmax M h1 h2]
@@ -34,7 +34,7 @@ theorem toForwardWith_eq_dense (lmax M : ℕ) (shb : ℕ → ℕ → ℕ → ℝ
 /-- `FromS2Grid.forward`: likewise -/
 theorem fromForwardWith_eq_dense (lmax N M : ℕ) (shb : ℕ → ℕ → ℕ → ℝ) (g : ℕ → ℕ → ℝ) :
     fromForwardWith lmax N M shb g = .ok (fromForwardDenseWith lmax N M shb g) := by
-  unfold fromForwardWith
+  unfold fromForwardWith fromAlphaStep
   by_cases h : useFFT lmax M = true
   · obtain ⟨h1, h2⟩ := (useFFT_iff lmax M).mp h
     simp only [h, if_true, rfftCheck_ok lmax M h1]
